@@ -302,6 +302,27 @@ Section Refine.
   Qed.
 
   (* ---------------------------------------------------------------- run_batches *)
+  (* what shard i does with its batch *)
+  Definition bstep {A} (rt : A -> nat) (run : st -> list A -> st * list reply) (items : list A)
+      (i : nat) (s : st) : st * option (list nat * list reply) :=
+    let b := batch_of rt i items in
+    match b with
+    | [] => (s, None)
+    | _ => let '(s', rs) := run s (b.*2) in (s', Some (b.*1, rs))
+    end.
+  Lemma run_batches_bstep {A} (rt : A -> nat) run (items : list A) sh :
+    run_batches rt run items sh = ((imap (bstep rt run items) sh).*1, omap snd (imap (bstep rt run items) sh)).
+  Proof. reflexivity. Qed.
+  Lemma run_batches_ext_rt {A} (rt rt' : A -> nat) run (items : list A) sh :
+    (forall a, rt a = rt' a) -> run_batches rt run items sh = run_batches rt' run items sh.
+  Proof.
+    intros Hrt. rewrite !run_batches_bstep.
+    assert (imap (bstep rt run items) sh = imap (bstep rt' run items) sh) as ->; [|done].
+    apply imap_ext. intros i s _. unfold bstep.
+    assert (batch_of rt i items = batch_of rt' i items) as ->; [|done].
+    unfold batch_of. apply list_filter_iff. intros [j a]; cbn. by rewrite Hrt.
+  Qed.
+
   Section RunBatches.
     Context {A : Type}.
     Variable keyof : A -> list N.
@@ -310,12 +331,7 @@ Section Refine.
     Hypothesis run_pt : forall s b k, (run s b).1 !! k = upd k (s !! k) (filter (fun a => keyof a = k) b).
     Hypothesis upd_nil : forall k o, upd k o [] = o.
 
-    Let F (n : nat) (items : list A) (i : nat) (s : st) : st * option (list nat * list reply) :=
-      let b := batch_of (fun a => home_s n (keyof a)) i items in
-      match b with
-      | [] => (s, None)
-      | _ => let '(s', rs) := run s (b.*2) in (s', Some (b.*1, rs))
-      end.
+    Local Notation F n items := (bstep (fun a => home_s n (keyof a)) run items).
 
     Lemma run_batches_unfold (n : nat) (items : list A) sh :
       run_batches (fun a => home_s n (keyof a)) run items sh = ((imap (F n items) sh).*1, omap snd (imap (F n items) sh)).
@@ -325,7 +341,7 @@ Section Refine.
       (F n items i s).1 = (run s (batch_of (fun a => home_s n (keyof a)) i items).*2).1 \/
       ((F n items i s).1 = s /\ batch_of (fun a => home_s n (keyof a)) i items = []).
     Proof.
-      unfold F. destruct (batch_of _ i items) as [|p b] eqn:E; [right; done|left].
+      unfold bstep. destruct (batch_of _ i items) as [|p b] eqn:E; [right; done|left].
       by destruct (run s _).
     Qed.
 
@@ -368,7 +384,7 @@ Section Refine.
     Proof.
       rewrite run_batches_unfold. cbn. rewrite elem_of_list_omap. intros [x [Hx Ho]].
       apply elem_of_lookup_imap in Hx as [i [s [-> Hs]]]. exists i, s. split; [done|].
-      unfold F in Ho. destruct (batch_of _ i items) as [|p b] eqn:E; [done|].
+      unfold bstep in Ho. destruct (batch_of _ i items) as [|p b] eqn:E; [done|].
       remember (run s (p :: b).*2) as rr eqn:E2. destruct rr as [s1 rs1]. cbn in Ho. inversion Ho; subst. done.
     Qed.
     Lemma run_batches_outs_complete (items : list A) sh (i : nat) s :
@@ -378,7 +394,7 @@ Section Refine.
     Proof.
       intros Hs b Hb. rewrite run_batches_unfold. cbn. rewrite elem_of_list_omap.
       exists (F (List.length sh) items i s). split; [by apply elem_of_lookup_imap_2|].
-      unfold F. fold b. destruct b as [|p b'] eqn:E; [done|]. by destruct (run s _).
+      unfold bstep. fold b. destruct b as [|p b'] eqn:E; [done|]. by destruct (run s _).
     Qed.
 
     (* replies written back by original index: if every shard answers [G] of each item of its
@@ -404,3 +420,316 @@ Section Refine.
         + cbn. rewrite (HG i s Hs), zip_fst_snd_fmap. apply elem_of_list_fmap. by exists (j, a).
     Qed.
   End RunBatches.
+
+  (* ---------------------------------------------------------------- one step, arm by arm *)
+  Definition StepOK sh (rq : req P) (res : list st * reply) : Prop :=
+    reply_equiv rq res.2 (ref1 X (abs sh) rq).2 /\ abs res.1 = (ref1 X (abs sh) rq).1 /\
+    Homed res.1 /\ List.length res.1 = List.length sh.
+
+  Lemma abs_empties sh : abs ((fun _ => (∅ : st)) <$> sh) = ∅.
+  Proof.
+    apply map_eq; intros k. rewrite lookup_empty. apply lookup_union_list_None.
+    apply Forall_fmap, Forall_forall. intros; cbn. apply lookup_empty.
+  Qed.
+
+  Lemma step_flush sh (b : bool) : Homed sh -> StepOK sh (Generic (CFlush b)) (exec_generic X home_s sh (CFlush b)).
+  Proof.
+    intros HH. unfold StepOK; cbn.
+    assert (((fun s => (exec X s (CFlush false)).1) <$> sh) = ((fun _ => ∅) <$> sh)) as ->.
+    { apply list_fmap_ext; intros; apply (flush_spec X HX). }
+    split; [done|]. split; [apply abs_empties|]. split; [|by rewrite fmap_length].
+    intros i s k Hs Hk. rewrite list_lookup_fmap in Hs. destruct (sh !! i); inversion Hs; subst.
+    rewrite lookup_empty in Hk. by destruct Hk.
+  Qed.
+
+  (* KEYS on every shard: the states do not change, the concatenated answer lists the keys of
+     the union up to order *)
+  Lemma keys_fanout (p : list N) sh :
+    let rs := (fun s => exec X s (CKeys p)) <$> sh in
+    rs.*1 = sh /\ exists L, List.concat ((fun r => arr_items r.2) <$> rs) = kbulk <$> L /\
+                          L ≡ₚ filter (fun k => kmatch X p k = true) (List.concat (map_keys <$> sh)).
+  Proof.
+    induction sh as [|s sh IH]; cbn.
+    - split; [done|]. exists []. done.
+    - destruct IH as [IH1 [L [IH2 IH3]]]. destruct (keys_spec X HX s p) as [l [Hl Hp]].
+      rewrite Hl. cbn. split; [by f_equal|]. exists (l ++ L). split.
+      + rewrite fmap_app. by f_equal.
+      + rewrite filter_app. by rewrite Hp, IH3.
+  Qed.
+  Lemma omap_bulk_kbulk (l : list (list N)) : omap bulk_key (kbulk <$> l) = l.
+  Proof. induction l; cbn; [done|]. by f_equal. Qed.
+
+  Lemma step_keys sh (p : list N) : Homed sh -> StepOK sh (Generic (CKeys p)) (exec_generic X home_s sh (CKeys p)).
+  Proof.
+    intros HH. unfold StepOK; cbn. destruct (keys_fanout p sh) as [H1 [L [H2 H3]]].
+    rewrite H1, H2. destruct (keys_spec X HX (abs sh) p) as [l [Hl Hp]]. rewrite Hl; cbn.
+    split; [|done]. exists (kbulk <$> L), (kbulk <$> l). split; [done|]. split; [done|].
+    apply fmap_Permutation. rewrite H3, Hp. apply filter_Permutation.
+    symmetry. apply map_keys_union_list. by apply Homed_Disj.
+  Qed.
+
+  Lemma step_scan sh (c : N) (p : option (list N)) (n : option N) : Homed sh -> StepOK sh (Generic (CScan c p n)) (exec_generic X home_s sh (CScan c p n)).
+  Proof.
+    intros HH. unfold StepOK; cbn. destruct (keys_fanout (default [42] p) sh) as [H1 [L [H2 H3]]].
+    rewrite H1, H2. destruct (keys_spec X HX (abs sh) (default [42] p)) as [l [Hl Hp]]. rewrite Hl; cbn.
+    split; [|done]. rewrite !omap_bulk_kbulk. apply scan_page_perm.
+    rewrite H3, Hp. apply filter_Permutation. symmetry. apply map_keys_union_list. by apply Homed_Disj.
+  Qed.
+
+  Lemma step_dbsize sh : Homed sh -> StepOK sh (Generic CDbSize) (exec_generic X home_s sh CDbSize).
+  Proof.
+    intros HH. unfold StepOK; cbn.
+    assert (((fun s => exec X s CDbSize) <$> sh) = ((fun s => (s, RInt (zsize s))) <$> sh)) as ->.
+    { apply list_fmap_ext; intros; apply (dbsize_spec X HX). }
+    assert (((fun s : st => (s, RInt (zsize s))) <$> sh).*1 = sh) as ->.
+    { rewrite <- list_fmap_compose. apply list_fmap_id. }
+    split; [|done]. f_equal. change (Z.of_nat (size (abs sh))) with (zsize (abs sh)).
+    unfold abs. rewrite (size_union_list sh (Homed_Disj sh HH)).
+    clear HH. induction sh as [|s sh IH]; cbn; [done|]. f_equal. exact IH.
+  Qed.
+
+  Lemma step_ping sh (m : option (list N)) : Homed sh -> StepOK sh (Generic (CPing m)) (exec_generic X home_s sh (CPing m)).
+  Proof. intros HH. unfold StepOK; destruct m; cbn; done. Qed.
+
+  Lemma at_shard_some sh (i : nat) s (f : st -> st * reply) :
+    sh !! i = Some s -> at_shard sh i f = (<[i := (f s).1]> sh, (f s).2).
+  Proof. intros Hs. unfold at_shard. rewrite Hs. by destruct (f s). Qed.
+
+  (* one shard changes *)
+  Lemma single_update sh (i : nat) s s' (T : st) :
+    Homed sh -> (0 < List.length sh)%nat -> sh !! i = Some s ->
+    (forall k, home_s (List.length sh) k = i -> s' !! k = T !! k) ->
+    (forall k, home_s (List.length sh) k <> i -> s' !! k = s !! k) ->
+    (forall k, home_s (List.length sh) k <> i -> T !! k = abs sh !! k) ->
+    abs (<[i := s']> sh) = T /\ Homed (<[i := s']> sh) /\ List.length (<[i := s']> sh) = List.length sh.
+  Proof.
+    intros HH Hn Hs H1 H2 H3.
+    destruct (family_update sh (<[i := s']> sh) T HH (insert_length _ _ _) Hn) as [Ha Hb];
+      [|by rewrite insert_length].
+    intros j t t' k Ht Ht'. destruct (decide (j = i)) as [->|Hne].
+    - rewrite list_lookup_insert in Ht' by (by eapply lookup_lt_Some). inversion Ht'; subst t'.
+      rewrite Hs in Ht; inversion Ht; subst t. split; auto.
+    - rewrite list_lookup_insert_ne in Ht' by done. rewrite Ht in Ht'; inversion Ht'; subst t'.
+      split; [|done]. intros Hk. rewrite H3 by congruence. subst j. symmetry. by apply lookup_abs.
+  Qed.
+
+  Lemma step_fastget sh (b : bool) k : Homed sh -> (0 < List.length sh)%nat ->
+    StepOK sh (FastGet b k) (execN X home_s home_b sh (FastGet b k)).
+  Proof.
+    intros HH Hn. unfold StepOK; cbn. rewrite home_eq. destruct (home_some sh k Hn) as [s Hs]. rewrite Hs.
+    rewrite (get_direct_spec X HX), (lookup_abs sh s k HH Hs). done.
+  Qed.
+
+  Lemma step_fastset sh (b : bool) k (v : list N) : Homed sh -> (0 < List.length sh)%nat ->
+    StepOK sh (FastSet b k v) (execN X home_s home_b sh (FastSet b k v)).
+  Proof.
+    intros HH Hn. unfold StepOK; cbn. rewrite home_eq. destruct (home_some sh k Hn) as [s Hs].
+    rewrite (at_shard_some sh _ s _ Hs), (set_direct_spec X HX). cbn. split; [done|].
+    apply (single_update sh _ s); auto.
+    - intros k' Hk'. destruct (decide (k' = k)) as [->|Hne]; [by rewrite !lookup_insert|].
+      rewrite !lookup_insert_ne by done. symmetry. apply lookup_abs; [done|]. by rewrite Hk'.
+    - intros k' Hk'. apply lookup_insert_ne. congruence.
+    - intros k' Hk'. apply lookup_insert_ne. congruence.
+  Qed.
+
+  (* a command sent as a whole to the shard that homes all its keys *)
+  Lemma step_whole sh (i : nat) s (c : cmd P) :
+    Homed sh -> (0 < List.length sh)%nat -> sh !! i = Some s -> respects X c ->
+    (forall k, k ∈ cmd_keys c -> home_s (List.length sh) k = i) ->
+    let res := at_shard sh i (fun s => exec X s c) in
+    res.2 = (exec X (abs sh) c).2 /\ abs res.1 = (exec X (abs sh) c).1 /\ Homed res.1 /\
+    List.length res.1 = List.length sh.
+  Proof.
+    intros HH Hn Hs Hr Hk res. unfold res. rewrite (at_shard_some sh i s _ Hs). cbn.
+    assert (forall k, k ∈ cmd_keys c -> s !! k = abs sh !! k) as Hag.
+    { intros k Hin. symmetry. apply lookup_abs; [done|]. by rewrite (Hk k Hin). }
+    destruct (key_local X HX c Hr s (abs sh) Hag) as [Hrep Hst]. split; [done|].
+    assert (forall k, home_s (List.length sh) k <> i -> k ∉ cmd_keys c) as Hout.
+    { intros k Hne Hin. by apply Hne, Hk. }
+    destruct (single_update sh i s (exec X s c).1 (exec X (abs sh) c).1 HH Hn Hs) as [H1 [H2 H3]]; auto.
+    - intros k Hh. destruct (decide (k ∈ cmd_keys c)) as [Hin|Hnin]; [by apply Hst|].
+      rewrite !(key_frame X HX c Hr) by done. symmetry. apply lookup_abs; [done|]. by rewrite Hh.
+    - intros k Hh. apply (key_frame X HX c Hr). by apply Hout.
+    - intros k Hh. apply (key_frame X HX c Hr). by apply Hout.
+  Qed.
+
+  (* ---- the table: every variant with keys and no arm of its own is routed by its first key *)
+  Lemma rows_ok : forallb row_ok key_table = true.
+  Proof. vm_compute. reflexivity. Qed.
+  Lemma assoc_In {B} (t : string) (l : list (string * B)) (b : B) : assoc t l = Some b -> In (t, b) l.
+  Proof.
+    induction l as [|[x y] l IH]; cbn; [done|]. destruct (String.eqb t x) eqn:E.
+    - apply String.eqb_eq in E. intros [= ->]. subst. by left.
+    - intros H. right. auto.
+  Qed.
+  Lemma table_row_ok (t : string) (p : kprimary) (spec : list kfield) : table_row t = Some (p, spec) -> row_ok (t, (p, spec)) = true.
+  Proof.
+    intros H. apply assoc_In in H. pose proof rows_ok as Hall. rewrite forallb_forall in Hall. by apply Hall.
+  Qed.
+
+  Lemma primary_of_wf (c : cmd P) :
+    WfCmd c -> default_routed c -> cmd_keys c <> [] -> primary_key c = hd_error (cmd_keys c).
+  Proof.
+    destruct c as [| | | | | | | | |ks0|kvs0|tag ks p0]; try (by intros _ []); try (intros _ _ _; reflexivity).
+    intros [Harm [p1 [spec [Hrow Hconf]]]] _ Hne. unfold primary_key. cbn [tag_of cmd_keys]. rewrite Hrow.
+    pose proof (table_row_ok _ _ _ Hrow) as Hok. unfold row_ok in Hok. rewrite Harm in Hok.
+    rewrite !orb_false_l in Hok. apply andb_prop in Hok as [_ Hok].
+    destruct p1; try done. cbn in Hok.
+    destruct spec; [|done]. cbn in Hconf. cbn in Hne. destruct ks; done.
+  Qed.
+
+  Lemma default_target sh (c : cmd P) :
+    (0 < List.length sh)%nat -> WfCmd c -> default_routed c -> ~ CrossShard home_s (List.length sh) c ->
+    exists i s, sh !! i = Some s /\ exec_default X home_s sh c = at_shard sh i (fun s => exec X s c) /\
+                (forall k, k ∈ cmd_keys c -> home_s (List.length sh) k = i).
+  Proof.
+    intros Hn Hwf Hd Hcs.
+    assert (routed_keys c = cmd_keys c) as Hrk by (by destruct c).
+    assert (forall k1 k2, k1 ∈ cmd_keys c -> k2 ∈ cmd_keys c ->
+              home_s (List.length sh) k1 = home_s (List.length sh) k2) as Hsame.
+    { intros k1 k2 H1 H2. destruct (decide (home_s (List.length sh) k1 = home_s (List.length sh) k2)); [done|].
+      exfalso. apply Hcs. exists k1, k2. by rewrite Hrk. }
+    unfold exec_default. destruct (cmd_keys c) as [|k0 ks] eqn:EK.
+    - assert (primary_key c = None) as ->.
+      { unfold primary_key. rewrite EK. by destruct (table_row _) as [[[] ?]|]. }
+      destruct (lookup_lt_is_Some_2 sh 0 Hn) as [s Hs]. exists O, s. split; [done|]. split; [done|].
+      intros k Hk. by apply elem_of_nil in Hk.
+    - rewrite (primary_of_wf c Hwf Hd) by (by rewrite EK). rewrite EK. cbn.
+      destruct (home_some sh k0 Hn) as [s Hs]. eexists _, s. split; [done|]. split; [done|].
+      intros k Hk. apply Hsame; [done|]. apply elem_of_cons; auto.
+  Qed.
+
+  Lemma step_default sh (c : cmd P) :
+    Homed sh -> (0 < List.length sh)%nat -> WfCmd c -> default_routed c ->
+    ~ CrossShard home_s (List.length sh) c -> respects X c ->
+    let res := exec_default X home_s sh c in
+    res.2 = (exec X (abs sh) c).2 /\ abs res.1 = (exec X (abs sh) c).1 /\ Homed res.1 /\
+    List.length res.1 = List.length sh.
+  Proof.
+    intros HH Hn Hwf Hd Hcs Hr res.
+    destruct (default_target sh c Hn Hwf Hd Hcs) as [i [s [Hs [Heq Hk]]]].
+    unfold res. rewrite Heq. by apply (step_whole sh i s c).
+  Qed.
+
+  (* ---------------------------------------------------------------- EXISTS *)
+  Lemma count_present_cons (S : st) k ks :
+    count_present S (k :: ks) = (count_present S [k] + count_present S ks)%Z.
+  Proof.
+    unfold count_present. rewrite !filter_cons, filter_nil. destruct (decide _); cbn [List.length]; lia.
+  Qed.
+  Lemma count_present_nil (S : st) : count_present S [] = 0%Z.
+  Proof. reflexivity. Qed.
+  Lemma count_present_one_ext (S S' : st) k : S !! k = S' !! k -> count_present S [k] = count_present S' [k].
+  Proof. intros E. unfold count_present. rewrite !filter_cons, !filter_nil. rewrite E. done. Qed.
+
+  Lemma exists_fold sh (ks : list (list N)) (z : Z) : Homed sh -> (0 < List.length sh)%nat ->
+    foldl (fun acc k =>
+        let '(sh', r) := at_shard acc.1 (home_s (List.length sh) k) (fun s => exec X s (CExists [k])) in
+        (sh', (acc.2 + int_of r)%Z)) (sh, z) ks
+    = (sh, (z + count_present (abs sh) ks)%Z).
+  Proof.
+    intros HH Hn. revert z. induction ks as [|k ks IH]; intros z.
+    - cbn. f_equal. rewrite count_present_nil. lia.
+    - cbn [foldl]. cbn [fst snd]. destruct (home_some sh k Hn) as [s Hs].
+      rewrite (at_shard_some sh _ s _ Hs), (exists_spec X HX). cbn [fst snd int_of].
+      rewrite (list_insert_id sh _ s Hs). rewrite IH. f_equal.
+      rewrite (count_present_cons _ k ks).
+      rewrite (count_present_one_ext s (abs sh) k) by (symmetry; by apply lookup_abs). lia.
+  Qed.
+
+  Lemma step_exists sh (ks : list (list N)) : Homed sh -> (0 < List.length sh)%nat ->
+    StepOK sh (Generic (CExists ks)) (exec_generic X home_s sh (CExists ks)).
+  Proof.
+    intros HH Hn. unfold StepOK. cbn [exec_generic ref1 ref_generic]. rewrite (exists_fold sh ks 0 HH Hn).
+    cbn. rewrite Z.add_0_l. done.
+  Qed.
+
+  (* ---------------------------------------------------------------- DEL *)
+  Lemma del_run_fst {W} (s : gmap (list N) W) k ks : (del_run s (k :: ks)).1 = (del_run (delete k s) ks).1.
+  Proof. cbn. by destruct (del_run (delete k s) ks). Qed.
+  Lemma del_run_snd {W} (s : gmap (list N) W) k ks :
+    (del_run s (k :: ks)).2 = ((if bool_decide (is_Some (s !! k)) then 1 else 0) + (del_run (delete k s) ks).2)%Z.
+  Proof. cbn. by destruct (del_run (delete k s) ks). Qed.
+
+  Definition upd_del (k : list N) (o : option V) (l : list (list N)) : option V :=
+    match l with [] => o | _ => None end.
+  Lemma del_run_lookup s (ks : list (list N)) k :
+    (del_run s ks).1 !! k = upd_del k (s !! k) (filter (fun a => a = k) ks).
+  Proof.
+    revert s; induction ks as [|a ks IH]; intros s; [done|].
+    rewrite del_run_fst, IH, filter_cons. destruct (decide (a = k)) as [->|Hne].
+    - rewrite lookup_delete. cbn. by destruct (filter _ ks).
+    - by rewrite lookup_delete_ne.
+  Qed.
+  Lemma del_run_count s (ks : list (list N)) : (del_run s ks).2 = (zsize s - zsize (del_run s ks).1)%Z.
+  Proof.
+    revert s; induction ks as [|a ks IH]; intros s; [cbn; lia|].
+    rewrite del_run_snd, del_run_fst, IH. unfold zsize.
+    destruct (s !! a) as [v|] eqn:E.
+    - rewrite bool_decide_eq_true_2 by eauto. rewrite (map_size_delete_Some a s) by eauto.
+      assert (0 < size s)%nat. { destruct (decide (size s = 0)%nat) as [Hz|]; [|lia].
+        apply map_size_empty_inv in Hz. subst. by rewrite lookup_empty in E. }
+      lia.
+    - rewrite bool_decide_eq_false_2 by (intros [? ?]; congruence).
+      rewrite (map_size_delete_None a s) by done. lia.
+  Qed.
+
+  Lemma sum_ints_app l1 l2 : sum_ints (l1 ++ l2) = (sum_ints l1 + sum_ints l2)%Z.
+  Proof.
+    induction l1 as [|r l1 IH]; [change (sum_ints []) with 0%Z; cbn [app]; lia|].
+    rewrite <- app_comm_cons. change (sum_ints (r :: l1 ++ l2)) with (int_of r + sum_ints (l1 ++ l2))%Z.
+    change (sum_ints (r :: l1)) with (int_of r + sum_ints l1)%Z. lia.
+  Qed.
+
+  Lemma sum_del_outs (G : nat -> st -> st * option (list nat * list reply)) sh :
+    (forall i s, sh !! i = Some s ->
+       match (G i s).2 with Some o => sum_ints o.2 | None => 0%Z end = (zsize s - zsize (G i s).1)%Z) ->
+    sum_ints (List.concat (omap snd (imap G sh)).*2) = (zsum (zsize <$> sh) - zsum (zsize <$> (imap G sh).*1))%Z.
+  Proof.
+    revert G; induction sh as [|s sh IH]; intros G HG; [done|].
+    rewrite imap_cons. pose proof (HG O s eq_refl) as H0.
+    specialize (IH (G ∘ S) (fun i t Ht => HG (S i) t Ht)).
+    cbn [omap list_omap fmap list_fmap]. destruct (G O s) as [s' [o|]]; cbn [snd fst] in *.
+    - cbn. rewrite sum_ints_app. cbn in IH. rewrite IH. lia.
+    - cbn. cbn in IH. rewrite IH. lia.
+  Qed.
+
+  Lemma step_del sh (ks : list (list N)) : Homed sh -> (0 < List.length sh)%nat ->
+    StepOK sh (Generic (CDel ks)) (exec_generic X home_s sh (CDel ks)).
+  Proof.
+    intros HH Hn. unfold StepOK. cbn [exec_generic ref1 ref_generic].
+    destruct (1 <? List.length ks)%nat eqn:Elen.
+    - (* fan-out *)
+      set (run := fun (s : st) (b : list (list N)) => let '(s', r) := exec X s (CDel b) in (s', [r])).
+      assert (forall s b, run s b = ((del_run s b).1, [RInt (del_run s b).2])) as Hrun.
+      { intros s b. unfold run. by rewrite (del_spec X HX). }
+      change (home_s (List.length sh)) with (fun a : list N => home_s (List.length sh) (id a)).
+      destruct (run_batches_state id run upd_del) with (items := ks) (sh := sh) (T := (del_run (abs sh) ks).1)
+        as [H1 [H2 H3]]; auto.
+      { intros s b k. rewrite Hrun. cbn. apply del_run_lookup. }
+      { intros k. apply del_run_lookup. }
+      destruct (run_batches _ run ks sh) as [sh' outs] eqn:E. cbn [fst snd] in *.
+      split; [|done]. f_equal.
+      assert (outs = (run_batches (fun a => home_s (List.length sh) (id a)) run ks sh).2) as -> by (by rewrite E).
+      assert (sh' = (run_batches (fun a => home_s (List.length sh) (id a)) run ks sh).1) as Esh by (by rewrite E).
+      rewrite run_batches_bstep in *. cbn [fst snd] in *.
+      rewrite sum_del_outs.
+      + rewrite <- Esh. rewrite <- !size_union_list by (by apply Homed_Disj).
+        fold (abs sh) (abs sh'). rewrite H2. by rewrite del_run_count.
+      + intros i s Hs. unfold bstep. destruct (batch_of _ i ks) as [|p b]; [cbn; lia|].
+        rewrite Hrun. cbn. rewrite del_run_count. lia.
+    - (* at most one key: the default arm *)
+      assert (primary_key (CDel ks : cmd P) = hd_error ks) as Hp by reflexivity.
+      unfold exec_default. rewrite Hp. destruct ks as [|k [|k2 ks]]; [| |cbn in Elen; done].
+      + cbn [hd_error]. destruct (lookup_lt_is_Some_2 sh 0 Hn) as [s Hs].
+        rewrite (at_shard_some sh _ s _ Hs), (del_spec X HX). cbn. rewrite (list_insert_id sh _ s Hs). done.
+      + cbn [hd_error]. destruct (home_some sh k Hn) as [s Hs].
+        rewrite (at_shard_some sh _ s _ Hs), (del_spec X HX). cbn [fst snd].
+        rewrite !del_run_fst, !del_run_snd. cbn [del_run fst snd].
+        rewrite (lookup_abs sh s k HH Hs). split; [done|].
+        apply (single_update sh _ s); auto.
+        * intros k' Hk'. destruct (decide (k' = k)) as [->|Hne]; [by rewrite !lookup_delete|].
+          rewrite !lookup_delete_ne by done. symmetry. apply lookup_abs; [done|]. by rewrite Hk'.
+        * intros k' Hk'. apply lookup_delete_ne. congruence.
+        * intros k' Hk'. apply lookup_delete_ne. congruence.
+  Qed.
